@@ -44,6 +44,9 @@ type vfSched struct {
 	probePts map[string]bool // point names at which probe goroutines park
 	off      bool
 	events   []vfEvent
+	// observe, when set, is called (on the goroutine that reached the hook, before anything else) for every hook
+	// point reached by anybody - also while the controller is off
+	observe func(point string)
 
 	// spin barrier: actors reaching spinPoint do not park on a channel but spin until spinGo is set, so that they
 	// all leave within nanoseconds of each other (for races whose window has no hook inside)
@@ -93,6 +96,11 @@ func (s *vfSched) logLocked(actor, kind, point string) int {
 func (s *vfSched) point(name string, args ...any) {
 	gid := vfGoID()
 	s.mu.Lock()
+	if obs := s.observe; obs != nil {
+		s.mu.Unlock()
+		obs(name)
+		s.mu.Lock()
+	}
 	actor := s.byGID[gid]
 	isProbe := false
 	if actor == "" && s.probePts[name] && len(args) > 0 {
